@@ -281,6 +281,8 @@ type rig struct {
 	calls      []*callRT
 	pushCh     chan *protocol.Message
 	pushes     []int
+	fedPush    []int // the payloads of the server messages fed to the reader, in order
+	pushFail   bool
 	modelEvs   []string
 	fails      []string // oracle failures: "sig|detail"
 	sentinel   int
@@ -553,6 +555,7 @@ func (r *rig) barrier() error {
 	e := csmEvent{op: "recv", fid: fid, seq: 424242, push: true, dec: true, code: true}
 	r.conn.rdCh <- buildResp(e, r.bytesMode)
 	r.modelEvs = append(r.modelEvs, e.enc())
+	r.fedPush = append(r.fedPush, fid)
 	deadline := time.After(stepTimeout)
 	for {
 		select {
@@ -562,6 +565,11 @@ func (r *rig) barrier() error {
 			}
 			n, _ := strconv.Atoi(string(m.Payload))
 			r.pushes = append(r.pushes, n)
+			// C03: server messages are handed over in order, each with the payload that was sent
+			if k := len(r.pushes) - 1; k < len(r.fedPush) && r.fedPush[k] != n && !r.pushFail {
+				r.pushFail = true
+				r.fail("push-changed", fmt.Sprintf("server message number %d on the channel carries payload %q; the peer sent %d as its %d-th server message", k+1, m.Payload, r.fedPush[k], k+1))
+			}
 			if n == fid {
 				return nil
 			}
@@ -769,6 +777,8 @@ func (r *rig) exec1(id string, e csmEvent) (bool, error) {
 		}
 		if !e.push {
 			r.fed[e.seq] = append(r.fed[e.seq], e)
+		} else {
+			r.fedPush = append(r.fedPush, e.fid)
 		}
 		r.recvOpen = true
 		return true, nil
